@@ -499,3 +499,45 @@ func TestVerifKF_C07_SrcsetDescriptorWhitespace(t *testing.T) {
 	c07KFRun(t, "C07/kf-srcset-descriptor-whitespace", c07KFCase(c07KFPage, "body", node,
 		verifgen.HTMLPlanted{Kind: "asset", Elem: "img", Attr: "srcset", Tag: "img", Quote: "dq", Pad: "srcset-ws", Ref: ref}))
 }
+
+// ---- facet C07/same-name ----------------------------------------------------------------------------------------
+//
+// Several requisites of one page that share a file name and differ only in where the reference points: the page's own
+// directory, its parent, the site root, another host. Each is a different resource ("resolved against the page's URL as
+// a browser would") and every one of them must be requested.
+
+func genC07SameName(t *rapid.T) c07Case {
+	page := verifgen.WFAbs{Scheme: []string{"http", "https"}[rapid.IntRange(0, 1).Draw(t, "scheme")], Host: "example.com",
+		Segs: [][]string{{"blog", "2024", "post.html"}, {"a", "b", "c", "index.html"}, {"dir", "page"}}[rapid.IntRange(0, 2).Draw(t, "pagepath")]}
+	name := []string{"logo.png", "style.css", "app.js", "pic.v2.jpg"}[rapid.IntRange(0, 3).Draw(t, "name")]
+	forms := []verifgen.WFRef{
+		{Kind: "path-rel", Segs: []string{name}},
+		{Kind: "path-rel", Segs: []string{".", name}},
+		{Kind: "path-rel", Segs: []string{"..", name}},
+		{Kind: "path-abs", Segs: []string{name}},
+		{Kind: "path-abs", Segs: []string{"static", name}},
+		{Kind: "path-rel", Segs: []string{"static", name}},
+		{Kind: "scheme-rel", Abs: &verifgen.WFAbs{Scheme: page.Scheme, Host: "cdn.site.net", Segs: []string{name}}},
+		{Kind: "abs", Abs: &verifgen.WFAbs{Scheme: "https", Host: "media.example.com", Segs: []string{name}}},
+	}
+	perm := rapid.Permutation(forms).Draw(t, "order")
+	n := rapid.IntRange(2, len(perm)).Draw(t, "n")
+	c := c07Case{Page: page, Hops: 0, MaxHops: 1}
+	for i, ref := range perm[:n] {
+		p := verifgen.HTMLPlanted{Kind: "asset", Elem: "img", Attr: "src", Tag: "img", Quote: "dq", Ref: ref, Token: name, Text: ref.Text(), Place: "body", TokIn: "path"}
+		node := verifgen.HTMLNode{Tag: "img", Attrs: []verifgen.HTMLAttr{{Name: "src", Value: ref.Text(), Quote: `"`}}}
+		if rapid.IntRange(0, 3).Draw(t, fmt.Sprintf("aslink%d", i)) == 0 && strings.HasSuffix(name, ".css") {
+			p.Elem, p.Attr, p.Tag, p.Rel, p.Place = "link", "href", "link", "stylesheet", "head"
+			node = verifgen.HTMLNode{Tag: "link", Attrs: []verifgen.HTMLAttr{{Name: "rel", Value: "stylesheet", Quote: `"`}, {Name: "href", Value: ref.Text(), Quote: `"`}}}
+			c.Doc.Head = append(c.Doc.Head, node)
+		} else {
+			c.Doc.Body = append(c.Doc.Body, node)
+		}
+		c.Doc.Planted = append(c.Doc.Planted, p)
+	}
+	return c
+}
+
+func TestVerif_C07_SameName(t *testing.T) {
+	c07Facet(t, "C07/same-name", genC07SameName, "")
+}
